@@ -3,6 +3,7 @@ from __future__ import annotations
 
 import json
 import os
+import zlib
 import random
 import re
 import tempfile
@@ -75,6 +76,12 @@ def log_kwargs(log, workdir):
         kw["path"] = path
     if log.get("overwrite"):
         kw["overwrite_logs_folder"] = True
+    # "not given" is spelled in both ways the interface allows: the keyword left out, or given as None (the documented default)
+    if zlib.crc32(repr(sorted((k, str(v)) for k, v in log.items())).encode()) % 2 == 0:
+        for name in ("path", "print_periodicity", "save_periodicity", "plot_periodicity", "plot_patient_periodicity"):
+            kw.setdefault(name, None)
+        if (log.get("print") or 0) % 2 == 0:
+            kw.setdefault("overwrite_logs_folder", False)
     return kw
 
 
